@@ -93,3 +93,105 @@ Theorem C14_nonvacuous :
   (exists is, parse_file ex_fs ex_resolve 3 ex_main = TOk is /\ length is = 7%nat) /\
   (exists tl, inline_t ex_fs ex_resolve 3 ex_main = Some tl /\ length tl = 7%nat).
 Proof. split; eexists; split; vm_compute; reflexivity. Qed.
+
+(* =================================================================================================
+   PATH RESOLUTION (appended).  Include.v's [resolve] instantiated with the lexical model of
+   IncludePath.v: [resolve canon] = PathBuf::from(source).parent() / push(argument), then
+   std::fs::canonicalize when the OS can ([canon], the only remaining parameter: it needs the
+   directory tree, the current directory and the symbolic links), the plain join otherwise.
+   Every theorem above holds for [resolve canon] (they are stated for every [resolve]).
+   '/' = c_slash.  [plain file]: a non-empty name without '/', other than ".".
+   [clean_dir dir]: the directory part does not end with '/' or a "/." component (sufficient:
+   it ends with a character other than '/' and '.', C14_clean_dir_last).
+   ================================================================================================= *)
+Require Import DS.IncludePath DS.IncludePathProof.
+
+(* Path::parent is total: the fuel of its two loops is never exhausted *)
+Theorem C14_parent_total : forall s, parent s <> PFuel.
+Proof. exact parent_total. Qed.
+(* ... and yields a proper prefix of the path string *)
+Theorem C14_parent_prefix : forall s d, parent s = PSome d -> exists t, s = d ++ t /\ t <> [].
+Proof. exact parent_prefix. Qed.
+(* the parent of "<dir>/<file>" is <dir> without trailing separators / "/." components *)
+Theorem C14_parent_dir_file : forall d f, d <> [] -> plain f = true -> parent (d ++ c_slash :: f) = PSome (trim_dir d).
+Proof. exact parent_dir_file. Qed.
+Theorem C14_trim_dir_clean : forall d, clean_dir d = true -> trim_dir d = d.
+Proof. exact trim_dir_clean. Qed.
+Theorem C14_clean_dir_last : forall d c, is_sep c = false -> (c =? c_dot)%N = false -> clean_dir (d ++ [c]) = true.
+Proof. exact clean_dir_last. Qed.
+
+(* RELATIVE paths are resolved against the including file's directory:
+   "<dir>/<file>" including "rel" opens "<dir>/rel" (canonicalised when the OS can) *)
+Theorem C14_resolve_relative : forall canon dir file rel,
+  dir <> [] -> dir <> [c_slash] -> clean_dir dir = true -> plain file = true -> is_abs rel = false ->
+  include_path (resolve canon) (Some (dir ++ c_slash :: file)) rel = or_canon canon (dir ++ c_slash :: rel).
+Proof. exact resolve_relative. Qed.
+(* ... for every spelling of the directory part ("lib/", "lib//", "lib/.": the join starts from "lib") *)
+Theorem C14_resolve_relative_any : forall canon dir file rel,
+  dir <> [] -> plain file = true -> is_abs rel = false ->
+  include_path (resolve canon) (Some (dir ++ c_slash :: file)) rel = or_canon canon (push (trim_dir dir) rel).
+Proof. exact resolve_relative_any. Qed.
+(* ABSOLUTE arguments (leading '/' or '\') are used as written, whatever the source *)
+Theorem C14_resolve_absolute : forall canon src a, is_abs a = true -> include_path (resolve canon) src a = a.
+Proof. exact resolve_absolute. Qed.
+(* corner cases *)
+Theorem C14_resolve_no_source : forall canon a, include_path (resolve canon) None a = a.
+Proof. exact resolve_no_source. Qed.
+Theorem C14_resolve_no_dir : forall canon file rel, plain file = true -> is_abs rel = false ->
+  include_path (resolve canon) (Some file) rel = or_canon canon rel.
+Proof. exact resolve_no_dir. Qed.
+Theorem C14_resolve_root : forall canon file rel, plain file = true -> is_abs rel = false ->
+  include_path (resolve canon) (Some (c_slash :: file)) rel = or_canon canon (c_slash :: rel).
+Proof. exact resolve_root. Qed.
+Theorem C14_resolve_no_parent : forall canon value a, parent value = PNone ->
+  include_path (resolve canon) (Some value) a = a.
+Proof. exact resolve_no_parent. Qed.
+(* when canonicalize fails, the plain join is what parse_file is given and what ErrorReadingFile names *)
+Theorem C14_resolve_canon_fails : forall canon value d a, is_abs a = false -> parent value = PSome d ->
+  canon (push d a) = None -> include_path (resolve canon) (Some value) a = push d a.
+Proof. exact resolve_canon_fails. Qed.
+(* a canonicalize that names the same file does not change which contents are read *)
+Theorem C14_resolve_reads : forall canon (fs : path -> option str) value a,
+  (forall p c, canon p = Some c -> fs c = fs p) ->
+  fs (include_path (resolve canon) (Some value) a) = fs (if is_abs a then a else lex_join value a).
+Proof. exact resolve_reads. Qed.
+(* PathBuf::push with an absolute right side replaces the buffer *)
+Theorem C14_push_absolute : forall d a, has_physical_root a = true -> push d a = a.
+Proof. exact push_absolute. Qed.
+(* Path::parent / PathBuf::push on the corner spellings: "", "/", "//", "/.", "a", ".", "..", "./",
+   "a/.", "a/b/", "a//b", "a/./b", "./a", "//a", "a/../b", "a/.." *)
+Theorem C14_parent_corners :
+  parent [] = PNone /\ parent [c_slash] = PNone /\ parent [c_slash; c_slash] = PNone /\
+  parent [c_slash; c_dot] = PNone /\
+  parent s_a = PSome [] /\ parent s_dot = PSome [] /\ parent s_dotdot = PSome [] /\
+  parent [c_dot; c_slash] = PSome [] /\
+  parent (s_a ++ [c_slash; c_dot]) = PSome [] /\
+  parent (s_a ++ c_slash :: s_b ++ [c_slash]) = PSome s_a /\
+  parent (s_a ++ c_slash :: c_slash :: s_b) = PSome s_a /\
+  parent (s_a ++ c_slash :: c_dot :: c_slash :: s_b) = PSome s_a /\
+  parent (c_dot :: c_slash :: s_a) = PSome s_dot /\
+  parent (c_slash :: c_slash :: s_a) = PSome [c_slash] /\
+  parent (s_a ++ c_slash :: s_dotdot ++ c_slash :: s_b) = PSome (s_a ++ c_slash :: s_dotdot) /\
+  parent (s_a ++ c_slash :: s_dotdot) = PSome s_a.
+Proof. exact parent_corners. Qed.
+Theorem C14_push_corners :
+  push s_a [] = s_a ++ [c_slash] /\
+  push [c_slash] s_b = c_slash :: s_b /\
+  push s_a (c_slash :: s_b) = c_slash :: s_b /\
+  push s_dot s_b = c_dot :: c_slash :: s_b /\
+  push (s_a ++ c_slash :: s_dotdot) s_b = s_a ++ c_slash :: s_dotdot ++ c_slash :: s_b.
+Proof. exact push_corners. Qed.
+
+(* non-vacuity with the lexical resolve: "lib/b" includes "a" and "../m"; with a canonicalize that
+   always fails the files opened are the plain joins "lib/a" and "lib/../m" *)
+Definition ex2_b : str := [108;105;98;47;98]. Definition ex2_a : str := [108;105;98;47;97].
+Definition ex2_m : str := [108;105;98;47;46;46;47;109].
+Definition ex2_fs (p : path) : option str :=
+  if str_eqb p ex2_b then Some ([33] ++ s_include_files ++ [32;97;32;46;46;47;109;10])
+  else if str_eqb p ex2_a then Some [120;10]
+  else if str_eqb p ex2_m then Some [121;10]
+  else None.
+Theorem C14_resolve_nonvacuous :
+  exists i0 i1 i2, parse_file ex2_fs (resolve (fun _ => None)) 2 ex2_b = TOk [i0; i1; i2] /\
+    i_source i0 = Some ex2_b /\ i_source i1 = Some ex2_a /\ i_source i2 = Some ex2_m.
+Proof. do 3 eexists. split; [vm_compute; reflexivity|]. repeat split. Qed.
